@@ -88,3 +88,9 @@ package oauth2
 //@ func (WildcardScopeStrategyMatcher).doMatch
 //@   props C05
 //@   modifies nothing
+
+// C11: validations of introspection responses are recorded (ghost log ival)
+//@ func (IntrospectionResponse).Validate
+//@   props C11
+//@   logged ival
+//@   modifies nothing
